@@ -147,6 +147,39 @@ def astr_fmt(fmt, parts):
     return AStr("fmt(%r|%s)" % (fmt, "|".join(x.tag if isinstance(x, AStr) else repr(x) for x in parts)))
 
 
+class RLEV:
+    """run-length string: sequence of (character, multiplicity as Rat) blocks"""
+
+    def __init__(self, blocks):
+        out = []
+        for ch, k in blocks:
+            if isinstance(k, Rat) and k.is_const() and k.const_value() == 0:
+                continue
+            if out and out[-1][0] == ch:
+                out[-1] = (ch, out[-1][1] + k)
+            else:
+                out.append((ch, k))
+        self.blocks = out
+
+    def length(self):
+        t = Rat.const(0)
+        for _, k in self.blocks:
+            t = t + k
+        return t
+
+    def __repr__(self):
+        return "RLE(" + " ".join("%s^[%r]" % b for b in self.blocks) + ")"
+
+
+def _to_rle(v):
+    if isinstance(v, RLEV):
+        return v
+    if isinstance(v, str):
+        blocks = [(c, Rat.const(1)) for c in v]
+        return RLEV(blocks)
+    return None
+
+
 class PaletteV:
     """an unknown mapping residue -> text (the colour palette)"""
 
@@ -1195,6 +1228,10 @@ class Evaluator:
         op = type(node.op).__name__
         # list / string building
         if op == "Mult":
+            if isinstance(a, str) and len(a) == 1 and isinstance(b, Rat):
+                return RLEV([(a, b)])
+            if isinstance(b, str) and len(b) == 1 and isinstance(a, Rat):
+                return RLEV([(b, a)])
             if isinstance(a, (list, ListAcc)) and isinstance(b, Rat):
                 a, b = b, a
             if isinstance(b, (list, ListAcc)) and isinstance(a, Rat):
@@ -1210,6 +1247,10 @@ class Evaluator:
                 pa = a.parts if isinstance(a, ConcatV) else [a]
                 pb = b.parts if isinstance(b, ConcatV) else [b]
                 return ConcatV(pa + pb)
+            if isinstance(a, RLEV) or isinstance(b, RLEV):
+                ra_, rb_ = _to_rle(a), _to_rle(b)
+                if ra_ is not None and rb_ is not None:
+                    return RLEV(ra_.blocks + rb_.blocks)
             if isinstance(a, _StrAcc) and isinstance(b, str):
                 return _StrAcc(a.s + b)
             if isinstance(a, str) and isinstance(b, str):
@@ -1461,6 +1502,8 @@ class Evaluator:
                 return Rat.atom("len(%s)" % a.tag)
             if isinstance(a, FieldListV):
                 return Rat.atom("len(%s)" % a.name)
+            if isinstance(a, RLEV):
+                return a.length()
             if isinstance(a, ListAcc):
                 return Rat.const(len(a.items))
         if name in ("list", "tuple", "sorted") and len(args) == 1:
